@@ -197,6 +197,34 @@ def c07_body(elems, pts, new_elems, new_pts, old_to_new, reflect):
             f"np.array({np.asarray(new_pts).tolist()!r}), {old_to_new!r}, {reflect!r})\nprint(why)\n")
 
 
+def c07_cutoff_case(perm):
+    """CHFBr-Cl with a stretched C-Cl bond (2.35 A, beyond the default cutoff) and a caller-tuned cutoff given for the element pair
+    in ONE order: the perceived graph may not depend on the order of the atoms"""
+    from stereomolgraph import StereoMolGraph
+    from stereomolgraph.coords import BondsFromDistance, Geometry
+    from stereomolgraph.periodic_table import PERIODIC_TABLE
+
+    t = np.array([[1, 1, 1], [1, -1, -1], [-1, 1, -1], [-1, -1, 1]]) / math.sqrt(3)
+    symbols = ["C", "H", "F", "Br", "Cl"]
+    coords = np.vstack([np.zeros(3)] + [v * l for v, l in zip(t, (1.09, 1.36, 1.94, 2.35))]) + np.array([0.3, -1.2, 2.0])
+
+    def sf():
+        f = BondsFromDistance()
+        f.connectivity_cutoff[(PERIODIC_TABLE["C"], PERIODIC_TABLE["Cl"])] = 2.6
+        return f
+
+    ref = StereoMolGraph.from_geometry(Geometry(symbols, coords), sf())
+    g = StereoMolGraph.from_geometry(Geometry([symbols[p] for p in perm], coords[list(perm)]), sf())
+    back = {new: old for new, old in enumerate(perm)}
+    got = {frozenset(back[a] for a in b) for b in g.bonds}
+    exp = {frozenset(b) for b in ref.bonds}
+    if got != exp:
+        return False, f"atom order {perm}: bonds {sorted(map(sorted, got))} instead of {sorted(map(sorted, exp))}"
+    if (g.get_atom_stereo(perm.index(0)) is None) != (ref.get_atom_stereo(0) is None):
+        return False, f"atom order {perm}: descriptor of the centre {'lost' if g.get_atom_stereo(perm.index(0)) is None else 'appeared'}"
+    return True, ""
+
+
 def read_xyz_frames(path):
     from stereomolgraph.coords import Geometry
 
@@ -240,6 +268,33 @@ def run_c07(rep, tier, seed):
             G["centre-not-first-atom"].case(ok, f"{cname}: {why}; elements {elems}", c07_body(elems, pts, ne, npts, o2n, False))
         for g in G.values():
             g.close()
+    # a DISTORTED five-coordinate centre with two wide angles (172 and 158 degrees, no tie, nowhere near a threshold of the
+    # property): whichever pair the perception takes as the axis, it must be the same pair under every atom order
+    Gd = {n: Group(rep, f"C07/bounded/distorted-trigonal-bipyramid/{n}") for n in ("rigid-motion-and-atom-reordering", "reflection-gives-the-enantiomer")}
+    R = radii()
+    ligs = [9, 17, 35, 8, 7]
+    dirs = [np.array([0, 0, 1.0]), np.array([math.sin(math.radians(8)), 0, -math.cos(math.radians(8))]),
+            np.array([1.0, 0, 0]), np.array([math.cos(math.radians(158)), math.sin(math.radians(158)), 0]), np.array([math.cos(math.radians(-101)), math.sin(math.radians(-101)), 0])]
+    for rep_i in range(3 if tier == "quick" else 12):
+        order = list(range(5))
+        rng.shuffle(order)
+        elems = [15] + [ligs[i] for i in order]
+        pts = np.array([np.zeros(3)] + [dirs[j] * 0.98 * (R[15] + R[ligs[i]]) for j, i in enumerate(order)])
+        distinct += 1
+        for v in range(2 * n_tr):
+            ne, npts, o2n = transform(elems, pts, rng, reflect=False)
+            ok, why = c07_case(elems, pts, ne, npts, o2n, False)
+            Gd["rigid-motion-and-atom-reordering"].case(ok, f"distorted TBP: {why}; elements {elems}", c07_body(elems, pts, ne, npts, o2n, False), sample={"elements": elems})
+            ne, npts, o2n = transform(elems, pts, rng, reflect=True)
+            ok, why = c07_case(elems, pts, ne, npts, o2n, True)
+            Gd["reflection-gives-the-enantiomer"].case(ok, f"distorted TBP: {why}; elements {elems}", c07_body(elems, pts, ne, npts, o2n, True))
+    for g in Gd.values():
+        g.close()
+    gc = Group(rep, "C07/bounded/caller-tuned-cutoff-for-one-element-pair/atom-reordering")
+    for perm in itertools.permutations(range(5)):
+        ok, why = c07_cutoff_case(perm)
+        gc.case(ok, why, f"from vf.e3.geom import c07_cutoff_case\nok, why = c07_cutoff_case({perm!r})\nprint(why)\n", sample={"order": list(perm)})
+    gc.close()
     G = {n: Group(rep, f"C07/bounded/double-bond-template/{n}") for n in ("rigid-motion-and-atom-reordering", "reflection-keeps-planar-descriptor", "all-atom-orders")}
     for _ in range(6 if tier == "quick" else 30):
         elems, pts = ethene_like(rng)
